@@ -58,6 +58,22 @@ def order_table():
                           "fn dsp(){ val(A(1)) + val(C(10)) + val(E(100)) + val(B(1000)) + val(D(3)) }\n")
     t["many_aliases"] = ("".join(f"type alias T{i} = {'float' if i % 2 == 0 else '(float, float)'}\n" for i in range(6))
                          + "fn f0(x: T0) -> T1 { (x, x + 1) }\nfn f2(p: T3) -> T4 { p.0 + p.1 }\nfn dsp(){ f2(f0(3)) }\n")
+    # two sum types that share constructor names: which type a bare constructor belongs to must not depend on the order
+    # in which a map of declarations happens to be walked
+    t["clash_constructors"] = ("type A = Foo(float) | Bar(float)\ntype B = Baz(float) | Foo((float, float))\n"
+                               "fn va(s){\n  match s {\n    Foo(x) => x + 1,\n    Bar(x) => x + 2,\n  }\n}\nfn dsp(){ va(Foo(1.0)) }\n")
+    t["clash_constructors4"] = ("".join(f"type T{i} = K(float) | U{i}(float)\n" for i in range(4))
+                                + "fn v(s){\n  match s {\n    K(x) => x + 1,\n    U2(x) => x + 2,\n  }\n}\nfn dsp(){ v(K(1.0)) + v(U2(5.0)) }\n")
+    # programs that differ only in where a type is declared (module a / module b / top level) and mention it by its bare
+    # name: what one compilation resolved must not leak into the next one of the same process
+    for where in ("a", "b", "c"):
+        t[f"type_in_mod_{where}"] = (f"mod {where} {{\n  pub type alias Num = float | string\n}}\n"
+                                     "fn show(v:Num) -> float {\n  match v {\n    float(x) => x + 20.0,\n    string(s) => 0.0\n  }\n}\n"
+                                     "fn dsp(){ show(2.0) }\n")
+    t["type_at_top"] = ("type alias Num = float | string\nfn show(v:Num) -> float {\n  match v {\n    float(x) => x + 20.0,\n"
+                        "    string(s) => 0.0\n  }\n}\nfn dsp(){ show(2.0) }\n")
+    t["type_in_two_mods"] = ("mod a {\n  pub type alias Num = float | string\n}\nmod b {\n  pub type alias Num = (float, float)\n}\n"
+                             "fn show(v:Num) -> float { 1.0 }\nfn dsp(){ show(2.0) }\n")
     return t
 
 
